@@ -234,7 +234,7 @@ def run(ctx, out):
     # (a) structured sessions through the model tie, all messages randomly segmented
     dcheck.run_property(ctx, out, "C06", None, n_quick=250, n_thorough=4000,
                         gen_kw=dict(ws_share=0.4, batches=0.15, malformed=0.1, faults=True),
-                        directed=directed.regressions() + directed.batch_orders())
+                        directed=directed.regressions() + directed.batch_orders() + directed.full_buffer_request() + directed.ws_control_under_faults())
     # (b) byte-level chaos
     t0 = time.time()
     n = 8000 if ctx.thorough else 700
